@@ -30,32 +30,32 @@ type Field struct {
 
 // type codes
 const (
-	TGlobalBegin            = 1
-	TGlobalBeginResult      = 2
-	TBranchCommit           = 3
-	TBranchCommitResult     = 4
-	TBranchRollback         = 5
-	TBranchRollbackResult   = 6
-	TGlobalCommit           = 7
-	TGlobalCommitResult     = 8
-	TGlobalRollback         = 9
-	TGlobalRollbackResult   = 10
-	TBranchRegister         = 11
-	TBranchRegisterResult   = 12
-	TBranchReport           = 13
-	TBranchReportResult     = 14
-	TGlobalStatus           = 15
-	TGlobalStatusResult     = 16
-	TGlobalReport           = 17
-	TGlobalReportResult     = 18
-	TGlobalLockQuery        = 21
-	TGlobalLockQueryResult  = 22
-	TRegTM                  = 101
-	TRegTMResult            = 102
-	TRegRM                  = 103
-	TRegRMResult            = 104
-	ResultFailed       byte = 0
-	ResultSuccess      byte = 1
+	TGlobalBegin                = 1
+	TGlobalBeginResult          = 2
+	TBranchCommit               = 3
+	TBranchCommitResult         = 4
+	TBranchRollback             = 5
+	TBranchRollbackResult       = 6
+	TGlobalCommit               = 7
+	TGlobalCommitResult         = 8
+	TGlobalRollback             = 9
+	TGlobalRollbackResult       = 10
+	TBranchRegister             = 11
+	TBranchRegisterResult       = 12
+	TBranchReport               = 13
+	TBranchReportResult         = 14
+	TGlobalStatus               = 15
+	TGlobalStatusResult         = 16
+	TGlobalReport               = 17
+	TGlobalReportResult         = 18
+	TGlobalLockQuery            = 21
+	TGlobalLockQueryResult      = 22
+	TRegTM                      = 101
+	TRegTMResult                = 102
+	TRegRM                      = 103
+	TRegRMResult                = 104
+	ResultFailed           byte = 0
+	ResultSuccess          byte = 1
 )
 
 var txnResp = []Field{{"result", Result}, {"excCode", U8}}
